@@ -122,10 +122,19 @@ def run_tlc(module, cfg_text, workdir, env=None, workers=1, extra=(), timeout=36
     return TlcResult(rc, out, time.time() - t0)
 
 
+def _sanitize(x):
+    """TLC's Json module cannot read null: drop None-valued keys (harness-only annotations)."""
+    if isinstance(x, dict):
+        return {k: _sanitize(v) for k, v in x.items() if v is not None}
+    if isinstance(x, (list, tuple)):
+        return [_sanitize(v) for v in x]
+    return x
+
+
 def write_ndjson(path, records):
     with open(path, 'w') as f:
         for r in records:
-            f.write(json.dumps(r, separators=(',', ':')))
+            f.write(json.dumps(_sanitize(r), separators=(',', ':')))
             f.write('\n')
 
 
